@@ -65,6 +65,12 @@ def util(ctx, world, ev):
         ctx.ob("K1-guard", "number_to_bytes returns only for num <= maxval", ok,
                "returning path requires exactly num <= maxval" if ok else
                "the overflow guard is not 'num > maxval raises': conditions %s" % sorted(show(t, maxdepth=3) + "=" + str(p) for t, p in conds), site)
+    for o in rets:
+        allowed = {(mk_app("Gt", (num, maxval)), False), (mk_app("LtE", (num, maxval)), True), (mk_app("Lt", (maxval, num)), False), (mk_app("GtE", (maxval, num)), True)}
+        extra = [show(t, maxdepth=4) + "=" + str(p) for (t, p, _) in o.state.pc[len(world.static.pc):]
+                 if (t, p) not in allowed and not is_app(t, "isinstance") and not (is_app(t, "Eq", "NotEq") and any(is_app(a, "len") for a in t.args))]
+        ctx.ob("K1-total", "number_to_bytes", not extra, "every 0 <= n <= maxval is encoded (no other condition on the returning path)" if not extra else
+               "number_to_bytes also requires %s: some n <= maxval are refused" % extra, site)
     over = [o for o in outs if o.kind == "raise" and ((mk_app("Gt", (num, maxval)), True) in conds_of(o) or (mk_app("LtE", (num, maxval)), False) in conds_of(o)
                                                       or (mk_app("Lt", (maxval, num)), True) in conds_of(o))]
     ok = bool(over) and all(len(o.state.pc) - len(world.static.pc) == 1 for o in over)
@@ -92,6 +98,12 @@ def integer_group(ctx, world, ev):
         ctx.require(rets, "%s.%s has no returning path" % (gname, meth_enc))
         wf = f.get(wfield)
         for o in rets:
+            extra = [show(t, maxdepth=4) + "=" + str(p) for (t, p, _) in o.state.pc if any(x == i for x in subterms(t))
+                     and not is_app(t, "isinstance") and not (is_app(t, "Eq", "NotEq") and any(is_app(a, "len") for a in t.args))
+                     and (t, p) not in {(mk_app("Gt", (i, mod_sym)), False), (mk_app("LtE", (i, mod_sym)), True), (mk_app("Lt", (i, mod_sym)), True),
+                                        (mk_app("GtE", (i, mod_sym)), False), (mk_app("LtE", (Const(0), i)), True), (mk_app("Lt", (i, Const(0))), False)}]
+            ctx.ob("K2-encoder-total", "%s.%s" % (gname, meth_enc), not extra, "every scalar in [0, q) is encoded" if not extra else
+                   "the scalar encoder also requires %s: some scalars in [0, q) cannot be serialised" % extra, (g.cls.mod.relpath, 0, meth_enc))
             v = o.value
             ok = is_app(v, "int2be") and v.args[0] == i and v.args[1] == wf and wf in width_forms(mod_sym)
             ctx.ob("K2-encoder", "%s.%s" % (gname, meth_enc), ok,
@@ -156,6 +168,13 @@ def ed25519(ctx, world, ev):
     rets = session.rets(outs)
     ctx.require(rets, "Ed25519 scalar_to_bytes has no returning path")
     for o in rets:
+        ym = mk_app("Mod", (y, L))
+        okc = {(App("And", (mk_app("LtE", (Const(0), ym)), mk_app("Lt", (ym, Const(2 ** 256))))), True), (mk_app("Lt", (ym, Const(2 ** 256))), True),
+               (mk_app("LtE", (Const(0), ym)), True)}
+        extra = [show(t, maxdepth=4) + "=" + str(p) for (t, p, _) in o.state.pc if any(x == y for x in subterms(t))
+                 and (t, p) not in okc and not is_app(t, "isinstance") and not (is_app(t, "Eq", "NotEq") and any(is_app(a, "len") for a in t.args))]
+        ctx.ob("K4-encoder-total", "Ed25519 scalar_to_bytes", not extra, "every scalar is encoded (reduced mod L first)" if not extra else
+               "the scalar encoder also requires %s: some scalars cannot be serialised" % extra, o.site)
         want = [mk_app("rev", (App("int2be", (mk_app("Mod", (y, L)), Const(32))),)), mk_app("rev", (App("int2be", (y, Const(32))),))]
         ok = o.value in want
         ctx.ob("K4-encoder", "Ed25519 scalar_to_bytes", ok, "little-endian, exactly 32 bytes (of y mod L)" if ok else
